@@ -103,3 +103,55 @@ package v2
 //@   loop 1 invariant true
 //@   call (messageSender).sendTransactionList #1 requires [list-built-by-the-payload-filtering-collector]
 //@        isNilIface(ret(call (*protocol).collectTransactionList #1).1) && arg(3) == ret(call (*protocol).collectTransactionList #1).0 && arg(1) == connection
+
+// ---- C19: a response of any message type on an open conversation is an error, never a panic ----
+// The stored conversation data is this node's own request (its oneof member is set); the response comes
+// from a peer: any envelope type may arrive under a known conversation id. Protobuf decoding never
+// leaves the selected oneof member nil (stated as a precondition, as for the handlers).
+//@ func (Envelope_TransactionList).parseTransactions
+//@   trusted
+//@   benign
+//@   ensures isNilIface(result.1) ==> forall k int :: 0 <= k && k < len(result.0) ==> !isNilIface(result.0[k])
+//@ func hash.FromSlice
+//@   trusted
+//@   benign
+
+//@ func (*Envelope_TransactionListQuery).checkResponse
+//@   prop C19
+//@   safety
+//@   requires envelope != nil && envelope.TransactionListQuery != nil
+//@   requires typeOf(other) == *Envelope_TransactionList ==> other.(*Envelope_TransactionList) != nil
+//@   loop 1 invariant refs != nil
+//@   loop 2 invariant true
+//@   ensures [other-message-types-are-refused] typeOf(other) != *Envelope_TransactionList ==> result == errIncorrectEnvelopeType
+
+//@ func (*Envelope_TransactionRangeQuery).checkResponse
+//@   prop C19
+//@   safety
+//@   requires envelope != nil && envelope.TransactionRangeQuery != nil
+//@   requires typeOf(other) == *Envelope_TransactionList ==> other.(*Envelope_TransactionList) != nil
+//@   loop 1 invariant true
+//@   ensures [other-message-types-are-refused] typeOf(other) != *Envelope_TransactionList ==> result == errIncorrectEnvelopeType
+
+//@ func (*Envelope_State).checkResponse
+//@   prop C19
+//@   safety
+//@   requires envelope != nil && envelope.State != nil
+//@   requires typeOf(other) == *Envelope_TransactionSet ==> other.(*Envelope_TransactionSet) != nil && other.(*Envelope_TransactionSet).TransactionSet != nil
+//@   ensures [other-message-types-are-refused] typeOf(other) != *Envelope_TransactionSet ==> result == errIncorrectEnvelopeType
+
+// The manager hands the response to the checker of the conversation it was filed under; an unknown
+// conversation id is an error. (Conversations are stored by startConversation with their request.)
+//@ func (checkable).checkResponse
+//@   trusted
+//@   benign
+//@ func (conversationable).conversationID
+//@   trusted
+//@   benign
+//@ func (*conversationManager).check
+//@   prop C19
+//@   safety
+//@   requires forall k string :: k in cMan.conversations ==> cMan.conversations[k] != nil && !isNilIface(cMan.conversations[k].conversationData)
+//@   ensures [unknown-conversation-is-refused] !(arg(call (conversationID).String #1, 0).String() in old(cMan.conversations)) ==> result.0 == nil && !isNilIface(result.1)
+//@   ensures [checked-by-its-own-conversation] result.0 != nil ==> did(call (checkable).checkResponse #1) && result.1 == ret(call (checkable).checkResponse #1)
+//@        && arg(call (checkable).checkResponse #1, 0) == result.0.conversationData && arg(call (checkable).checkResponse #1, 1) == isEnvelope_Message(envelope)
